@@ -22,14 +22,17 @@ Rec(a, x) == [a |-> a, x |-> x, it |-> it', e |-> energy', f |-> force', ee |-> 
               q |-> quirk', nh |-> Len(hills'), nog |-> Len(og'), nd |-> Len(deposited')]
 
 \* vacuity witnesses
-WitInit == TLCSet(1, FALSE) /\ TLCSet(2, FALSE) /\ TLCSet(3, FALSE) /\ TLCSet(4, FALSE)
-Wit == /\ ((started /\ quirk = {} /\ energy > 0 /\ ~InGrid(Pos) /\ UseGrids) => TLCSet(1, TRUE))  \* off-grid look-up with a non-zero bias
-       /\ ((started /\ quirk = {} /\ nb <= Len(hills) /\ UseGrids /\ energy > 0) => TLCSet(2, TRUE))  \* pending hills during a look-up
-       /\ ((quirk # {}) => TLCSet(3, TRUE))
-       /\ ((runs > 1 /\ quirk = {} /\ energy > 0) => TLCSet(4, TRUE))
-WitPost == TLCGet(1) /\ TLCGet(2) /\ TLCGet(3) /\ TLCGet(4)
 
-MCInit == Init /\ hist = <<>> /\ WitInit
+\* vacuity witnesses: the check searches a state satisfying each Witness<i> (a violation of NoWitness<i>)
+Witness1 == started /\ quirk = {} /\ energy > 0 /\ ~InGrid(Pos) /\ UseGrids
+NoWitness1 == ~Witness1
+Witness2 == started /\ quirk = {} /\ nb <= Len(hills) /\ UseGrids /\ energy > 0
+NoWitness2 == ~Witness2
+Witness3 == quirk # {}
+NoWitness3 == ~Witness3
+Witness4 == runs > 1 /\ quirk = {} /\ energy > 0
+NoWitness4 == ~Witness4
+MCInit == Init /\ hist = <<>>
 MCNext == /\ Len(hist) < EmitLen
           /\ \/ \E P \in XLo..XHi : (p.wide => P % 2 = 1) /\ First(P) /\ hist' = Append(hist, Rec("First", P))
              \/ \E P \in XLo..XHi : (p.wide => P % 2 = 1) /\ Step(P) /\ hist' = Append(hist, Rec("Step", P))
